@@ -5,7 +5,7 @@ import MuduoVerif.Generated.TzFileSkel
 `Gen.TzFileSkel.<x>` is what `vlib/gen/tzfileskel.py` extracts from /repo's current `muduo/base/TimeZone.cc` on every
 run; `Decl.<x>` (`Model/TzFileSkelDecl.lean`) is what `Model/TzFile.lean` was written for.
 
-* `param_<x>`: a parameter of the reader (integer reader: bytes / byte swap / return type / exception text; lengths,
+* `tie_<x>`: a parameter of the reader (integer reader: bytes / byte swap / return type / exception text; lengths,
   magic and version tests; reader, type and ORDER of the counters; the size of the first block and the skips with their
   implicit conversions; which reader reads a transition time and the types a value passes through) is unchanged.  The
   model calls the generated definition, so a changed parameter changes the model as well; this equation says that the
@@ -21,51 +21,51 @@ namespace MuduoVerif.TzFileSkel
 -- `String` equality is evaluated character by character: the longest text needs more than the default depth
 set_option maxRecDepth 8192
 
-theorem param_readInt32 : Gen.TzFileSkel.readInt32 = Decl.readInt32 := rfl
-theorem param_readInt64 : Gen.TzFileSkel.readInt64 = Decl.readInt64 := rfl
-theorem param_readUInt8 : Gen.TzFileSkel.readUInt8 = Decl.readUInt8 := rfl
-theorem param_readBytesMsg : Gen.TzFileSkel.readBytesMsg = Decl.readBytesMsg := rfl
-theorem param_readBytesArgTy : Gen.TzFileSkel.readBytesArgTy = Decl.readBytesArgTy := rfl
-theorem param_skipArgTy : Gen.TzFileSkel.skipArgTy = Decl.skipArgTy := rfl
-theorem param_skipWhence : Gen.TzFileSkel.skipWhence = Decl.skipWhence := rfl
-theorem param_magicLen : Gen.TzFileSkel.magicLen = Decl.magicLen := rfl
-theorem param_badHead : Gen.TzFileSkel.badHead = Decl.badHead := rfl
-theorem param_badHeadMsg : Gen.TzFileSkel.badHeadMsg = Decl.badHeadMsg := rfl
-theorem param_versionLen : Gen.TzFileSkel.versionLen = Decl.versionLen := rfl
-theorem param_reservedLen : Gen.TzFileSkel.reservedLen = Decl.reservedLen := rfl
-theorem param_headerCountReader : Gen.TzFileSkel.headerCountReader = Decl.headerCountReader := rfl
-theorem param_headerCountTy : Gen.TzFileSkel.headerCountTy = Decl.headerCountTy := rfl
-theorem param_headerCounts : Gen.TzFileSkel.headerCounts = Decl.headerCounts := rfl
-theorem param_isV2 : Gen.TzFileSkel.isV2 = Decl.isV2 := rfl
-theorem param_v1BlockSkip : Gen.TzFileSkel.v1BlockSkip = Decl.v1BlockSkip := rfl
-theorem param_magic2Len : Gen.TzFileSkel.magic2Len = Decl.magic2Len := rfl
-theorem param_badHead2 : Gen.TzFileSkel.badHead2 = Decl.badHead2 := rfl
-theorem param_badHead2Msg : Gen.TzFileSkel.badHead2Msg = Decl.badHead2Msg := rfl
-theorem param_header2Skip : Gen.TzFileSkel.header2Skip = Decl.header2Skip := rfl
-theorem param_v2BranchV1 : Gen.TzFileSkel.v2BranchV1 = Decl.v2BranchV1 := rfl
-theorem param_rewind : Gen.TzFileSkel.rewind = Decl.rewind := rfl
-theorem param_v1BranchV1 : Gen.TzFileSkel.v1BranchV1 = Decl.v1BranchV1 := rfl
-theorem param_timeSize : Gen.TzFileSkel.timeSize = Decl.timeSize := rfl
-theorem param_blockCountReader : Gen.TzFileSkel.blockCountReader = Decl.blockCountReader := rfl
-theorem param_blockCountTy : Gen.TzFileSkel.blockCountTy = Decl.blockCountTy := rfl
-theorem param_blockCounts : Gen.TzFileSkel.blockCounts = Decl.blockCounts := rfl
-theorem param_rejectLeap : Gen.TzFileSkel.rejectLeap = Decl.rejectLeap := rfl
-theorem param_rejectIsut : Gen.TzFileSkel.rejectIsut = Decl.rejectIsut := rfl
-theorem param_rejectIsstd : Gen.TzFileSkel.rejectIsstd = Decl.rejectIsstd := rfl
-theorem param_rejectOrder : Gen.TzFileSkel.rejectOrder = Decl.rejectOrder := rfl
-theorem param_timeReader : Gen.TzFileSkel.timeReader = Decl.timeReader := rfl
-theorem param_timeElemTy : Gen.TzFileSkel.timeElemTy = Decl.timeElemTy := rfl
-theorem param_timeConvs : Gen.TzFileSkel.timeConvs = Decl.timeConvs := rfl
-theorem param_idxReader : Gen.TzFileSkel.idxReader = Decl.idxReader := rfl
-theorem param_idxVarTy : Gen.TzFileSkel.idxVarTy = Decl.idxVarTy := rfl
-theorem param_idxElemTy : Gen.TzFileSkel.idxElemTy = Decl.idxElemTy := rfl
-theorem param_ttinfoReaders : Gen.TzFileSkel.ttinfoReaders = Decl.ttinfoReaders := rfl
-theorem param_ttinfo : Gen.TzFileSkel.ttinfo = Decl.ttinfo := rfl
-theorem param_transIdxTys : Gen.TzFileSkel.transIdxTys = Decl.transIdxTys := rfl
-theorem param_transTimeTy : Gen.TzFileSkel.transTimeTy = Decl.transTimeTy := rfl
-theorem param_charsLen : Gen.TzFileSkel.charsLen = Decl.charsLen := rfl
-theorem param_blockSkips : Gen.TzFileSkel.blockSkips = Decl.blockSkips := rfl
-theorem param_readsFooter : Gen.TzFileSkel.readsFooter = Decl.readsFooter := rfl
+theorem tie_readInt32 : Gen.TzFileSkel.readInt32 = Decl.readInt32 := rfl
+theorem tie_readInt64 : Gen.TzFileSkel.readInt64 = Decl.readInt64 := rfl
+theorem tie_readUInt8 : Gen.TzFileSkel.readUInt8 = Decl.readUInt8 := rfl
+theorem tie_readBytesMsg : Gen.TzFileSkel.readBytesMsg = Decl.readBytesMsg := rfl
+theorem tie_readBytesArgTy : Gen.TzFileSkel.readBytesArgTy = Decl.readBytesArgTy := rfl
+theorem tie_skipArgTy : Gen.TzFileSkel.skipArgTy = Decl.skipArgTy := rfl
+theorem tie_skipWhence : Gen.TzFileSkel.skipWhence = Decl.skipWhence := rfl
+theorem tie_magicLen : Gen.TzFileSkel.magicLen = Decl.magicLen := rfl
+theorem tie_badHead : Gen.TzFileSkel.badHead = Decl.badHead := rfl
+theorem tie_badHeadMsg : Gen.TzFileSkel.badHeadMsg = Decl.badHeadMsg := rfl
+theorem tie_versionLen : Gen.TzFileSkel.versionLen = Decl.versionLen := rfl
+theorem tie_reservedLen : Gen.TzFileSkel.reservedLen = Decl.reservedLen := rfl
+theorem tie_headerCountReader : Gen.TzFileSkel.headerCountReader = Decl.headerCountReader := rfl
+theorem tie_headerCountTy : Gen.TzFileSkel.headerCountTy = Decl.headerCountTy := rfl
+theorem tie_headerCounts : Gen.TzFileSkel.headerCounts = Decl.headerCounts := rfl
+theorem tie_isV2 : Gen.TzFileSkel.isV2 = Decl.isV2 := rfl
+theorem tie_v1BlockSkip : Gen.TzFileSkel.v1BlockSkip = Decl.v1BlockSkip := rfl
+theorem tie_magic2Len : Gen.TzFileSkel.magic2Len = Decl.magic2Len := rfl
+theorem tie_badHead2 : Gen.TzFileSkel.badHead2 = Decl.badHead2 := rfl
+theorem tie_badHead2Msg : Gen.TzFileSkel.badHead2Msg = Decl.badHead2Msg := rfl
+theorem tie_header2Skip : Gen.TzFileSkel.header2Skip = Decl.header2Skip := rfl
+theorem tie_v2BranchV1 : Gen.TzFileSkel.v2BranchV1 = Decl.v2BranchV1 := rfl
+theorem tie_rewind : Gen.TzFileSkel.rewind = Decl.rewind := rfl
+theorem tie_v1BranchV1 : Gen.TzFileSkel.v1BranchV1 = Decl.v1BranchV1 := rfl
+theorem tie_timeSize : Gen.TzFileSkel.timeSize = Decl.timeSize := rfl
+theorem tie_blockCountReader : Gen.TzFileSkel.blockCountReader = Decl.blockCountReader := rfl
+theorem tie_blockCountTy : Gen.TzFileSkel.blockCountTy = Decl.blockCountTy := rfl
+theorem tie_blockCounts : Gen.TzFileSkel.blockCounts = Decl.blockCounts := rfl
+theorem tie_rejectLeap : Gen.TzFileSkel.rejectLeap = Decl.rejectLeap := rfl
+theorem tie_rejectIsut : Gen.TzFileSkel.rejectIsut = Decl.rejectIsut := rfl
+theorem tie_rejectIsstd : Gen.TzFileSkel.rejectIsstd = Decl.rejectIsstd := rfl
+theorem tie_rejectOrder : Gen.TzFileSkel.rejectOrder = Decl.rejectOrder := rfl
+theorem tie_timeReader : Gen.TzFileSkel.timeReader = Decl.timeReader := rfl
+theorem tie_timeElemTy : Gen.TzFileSkel.timeElemTy = Decl.timeElemTy := rfl
+theorem tie_timeConvs : Gen.TzFileSkel.timeConvs = Decl.timeConvs := rfl
+theorem tie_idxReader : Gen.TzFileSkel.idxReader = Decl.idxReader := rfl
+theorem tie_idxVarTy : Gen.TzFileSkel.idxVarTy = Decl.idxVarTy := rfl
+theorem tie_idxElemTy : Gen.TzFileSkel.idxElemTy = Decl.idxElemTy := rfl
+theorem tie_ttinfoReaders : Gen.TzFileSkel.ttinfoReaders = Decl.ttinfoReaders := rfl
+theorem tie_ttinfo : Gen.TzFileSkel.ttinfo = Decl.ttinfo := rfl
+theorem tie_transIdxTys : Gen.TzFileSkel.transIdxTys = Decl.transIdxTys := rfl
+theorem tie_transTimeTy : Gen.TzFileSkel.transTimeTy = Decl.transTimeTy := rfl
+theorem tie_charsLen : Gen.TzFileSkel.charsLen = Decl.charsLen := rfl
+theorem tie_blockSkips : Gen.TzFileSkel.blockSkips = Decl.blockSkips := rfl
+theorem tie_readsFooter : Gen.TzFileSkel.readsFooter = Decl.readsFooter := rfl
 
 theorem skeleton_fileReadBytes : Gen.TzFileSkel.fileReadBytes = Decl.fileReadBytes := by decide
 theorem skeleton_fileReadInt64 : Gen.TzFileSkel.fileReadInt64 = Decl.fileReadInt64 := by decide
@@ -139,51 +139,51 @@ theorem reader_tied :
     Gen.TzFileSkel.addLocalTime = Decl.addLocalTime ∧
     Gen.TzFileSkel.addTransition = Decl.addTransition ∧
     Gen.TzFileSkel.loadZoneFile = Decl.loadZoneFile :=
-  ⟨param_readInt32,
-   param_readInt64,
-   param_readUInt8,
-   param_readBytesMsg,
-   param_readBytesArgTy,
-   param_skipArgTy,
-   param_skipWhence,
-   param_magicLen,
-   param_badHead,
-   param_badHeadMsg,
-   param_versionLen,
-   param_reservedLen,
-   param_headerCountReader,
-   param_headerCountTy,
-   param_headerCounts,
-   param_isV2,
-   param_v1BlockSkip,
-   param_magic2Len,
-   param_badHead2,
-   param_badHead2Msg,
-   param_header2Skip,
-   param_v2BranchV1,
-   param_rewind,
-   param_v1BranchV1,
-   param_timeSize,
-   param_blockCountReader,
-   param_blockCountTy,
-   param_blockCounts,
-   param_rejectLeap,
-   param_rejectIsut,
-   param_rejectIsstd,
-   param_rejectOrder,
-   param_timeReader,
-   param_timeElemTy,
-   param_timeConvs,
-   param_idxReader,
-   param_idxVarTy,
-   param_idxElemTy,
-   param_ttinfoReaders,
-   param_ttinfo,
-   param_transIdxTys,
-   param_transTimeTy,
-   param_charsLen,
-   param_blockSkips,
-   param_readsFooter,
+  ⟨tie_readInt32,
+   tie_readInt64,
+   tie_readUInt8,
+   tie_readBytesMsg,
+   tie_readBytesArgTy,
+   tie_skipArgTy,
+   tie_skipWhence,
+   tie_magicLen,
+   tie_badHead,
+   tie_badHeadMsg,
+   tie_versionLen,
+   tie_reservedLen,
+   tie_headerCountReader,
+   tie_headerCountTy,
+   tie_headerCounts,
+   tie_isV2,
+   tie_v1BlockSkip,
+   tie_magic2Len,
+   tie_badHead2,
+   tie_badHead2Msg,
+   tie_header2Skip,
+   tie_v2BranchV1,
+   tie_rewind,
+   tie_v1BranchV1,
+   tie_timeSize,
+   tie_blockCountReader,
+   tie_blockCountTy,
+   tie_blockCounts,
+   tie_rejectLeap,
+   tie_rejectIsut,
+   tie_rejectIsstd,
+   tie_rejectOrder,
+   tie_timeReader,
+   tie_timeElemTy,
+   tie_timeConvs,
+   tie_idxReader,
+   tie_idxVarTy,
+   tie_idxElemTy,
+   tie_ttinfoReaders,
+   tie_ttinfo,
+   tie_transIdxTys,
+   tie_transTimeTy,
+   tie_charsLen,
+   tie_blockSkips,
+   tie_readsFooter,
    skeleton_fileReadBytes,
    skeleton_fileReadInt64,
    skeleton_fileReadInt32,
